@@ -90,6 +90,23 @@ def contractOf (files : List DFile) (n : Name) : Service :=
 def rootNames (cfg : Cfg) (srv : Server) : List Name :=
   fileNames (srv.files.filter fun f => (f.services.any fun s => decide (wanted cfg srv.listed s.name)))
 
+/-- what one poll over `methodPriority = [a, b]` has to do, given what each version would yield
+    (`ra`, `rb` = conversation, remembered hashes, outcome): see `C05_resolve_priority_spec` -/
+def resolveSpec (st : RState) (a b : Version) (ra rb : Option History × Option Snapshot × Outcome) :
+    RState × Outcome × PollLog :=
+  match ra.2.2 with
+  | .update t => ({ priority := [a, b], last := ra.2.1 }, .update t, [(a, ra.1)])
+  | .unchanged => ({ priority := [a, b], last := ra.2.1 }, .unchanged, [(a, ra.1)])
+  | .error e =>
+    if e.code = codeUnimplemented then
+      match rb.2.2 with
+      | .update t => ({ priority := [b, a], last := rb.2.1 }, .update t, [(a, ra.1), (b, rb.1)])
+      | .unchanged => ({ priority := [b, a], last := rb.2.1 }, .unchanged, [(a, ra.1), (b, rb.1)])
+      | .error e2 =>
+        if e2.code = codeUnimplemented then (st, .error ⟨codeUnimplemented⟩, [(a, ra.1), (b, rb.1)])
+        else (st, .error e2, [(a, ra.1), (b, rb.1)])
+    else (st, .error e, [(a, ra.1)])
+
 /-! ### executable counterparts used by the driver's judgement of one observed conversation -/
 
 def specNames (cfg : Cfg) (raw : List Name) : List Name :=
@@ -107,5 +124,32 @@ def reachB (files : List DFile) (roots : List Name) : List Name := withinB files
 /-- rank-free acyclicity + the other clauses of `WFFiles`, decided -/
 def wfFilesB (files : List DFile) : Bool :=
   nodupB (fileNames files) && closedB files && acyclicB files && nodupB (symbols files) && typesResolveB files
+
+/-! ### deciders on one logged conversation (proved equivalent to the predicates above in Deciders.lean) -/
+
+def conformantEvent (own : List DFile) (listed : List Name) (e : Event) : Bool :=
+  match e with
+  | (.list, .listing l) => l == listed
+  | (.symbol n, .files fs) => fs.all (· ∈ own) && fs.any (fun f => decide (definesService f n))
+  | (.filename n, .files fs) => fs.all (· ∈ own) && n ∈ fileNames fs
+  | _ => false
+
+def focusedEvent (own : List DFile) (e : Event) : Bool :=
+  match e with
+  | (.symbol n, .files fs) =>
+    let roots := fileNames (own.filter fun f => decide (definesService f n))
+    fs.all fun g => g.name ∈ reachB own roots
+  | (.filename n, .files fs) => fs.all fun g => g.name ∈ reachB own [n]
+  | _ => true
+
+def specRoots (cfg : Cfg) (own : List DFile) (listed : List Name) : List Name :=
+  let names := specNames cfg listed
+  fileNames (own.filter fun f => f.services.any fun s => s.name ∈ names)
+
+/-- breadth-first import depth of the wanted services' files fits the limit -/
+def depthFits (cfg : Cfg) (own : List DFile) (listed : List Name) : Bool :=
+  let roots := specRoots cfg own listed
+  (reachB own roots).all (· ∈ withinB own roots cfg.limit)
+
 
 end GB.C05
